@@ -163,7 +163,17 @@ class C04(Property):
                 if rng.random() < 0.4:
                     ls.append(self.rand_loc(rng, n, False))
                 rng.shuffle(ls)
-            return {"f": f, "ls": ls, "wrap": w}
+            case = {"f": f, "ls": ls, "wrap": w}
+            if rng.random() < 0.4:
+                # through Record.connect_locations: the wrap point is the record length iff the record is circular
+                # and wrapping is not disabled
+                if w:
+                    case["via_record"] = {"max": n, "circ": True, "nowrap": False}
+                elif not any(x["c"] for x in ls):
+                    case["via_record"] = {"max": n, "circ": rng.random() < 0.5, "nowrap": False}
+                    if case["via_record"]["circ"]:
+                        case["via_record"]["nowrap"] = True
+            return case
         if f == "extend":
             d = rng.choice([0, 1, 2, n // 4, n // 2, n // 2 + 1, n - 1, n, n + 3, rng.randrange(0, n + 1)])
             return {"f": f, "a": a, "d": d, "max": n, "circ": circular}
@@ -265,7 +275,13 @@ class C04(Property):
                 return {"v": bool(SubRegion(a, tool="t") < SubRegion(b, tool="t"))}
             if f == "connect":
                 ls = [common.make_location(x) for x in case["ls"]]
-                res = loc.connect_locations(ls, case["wrap"] or None)
+                if case.get("via_record"):
+                    from antismash.common.secmet.test.helpers import DummyRecord
+                    vr = case["via_record"]
+                    rec = DummyRecord(length=vr["max"], circular=vr["circ"])
+                    res = rec.connect_locations(ls, disable_wrapping=True) if vr["nowrap"] else rec.connect_locations(ls)
+                else:
+                    res = loc.connect_locations(ls, case["wrap"] or None)
                 out = {"v": common.location_json(res)}
                 # metamorphic part of the property: argument order and applying the operation twice
                 try:
@@ -427,7 +443,8 @@ class C04(Property):
             tags.append("err:" + obs["err"])
         if any(x.get("c") for x in ([case.get("a"), case.get("b")] + case.get("ls", [])) if x):
             tags.append("compound-operand")
-        return Judgement(corr, spec_ok, in_scope=scope, known=known_id if not spec_ok else None, nontrivial=nontrivial,
+        return Judgement(corr, spec_ok, in_scope=scope, known=known_id if (not spec_ok and corr) else None,   # the recorded deviation is what the model (= unchanged code) does
+                          nontrivial=nontrivial,
                          tags=tuple(tags), detail=detail)
 
     def shrink(self, case: Dict[str, Any]) -> Iterator[Dict[str, Any]]:
